@@ -130,7 +130,7 @@ def run_tlc(
     spec_dir = spec_dir or SPEC
     cfg = cfg or (module + ".cfg")
     meta = tempfile.mkdtemp(prefix="tlcmeta_")
-    jopts = [f"-Xmx{heap}", "-XX:+UseParallelGC"]
+    jopts = [f"-Xmx{heap}", "-Xss128m", "-XX:+UseParallelGC"]
     if dfs:
         jopts.append("-Dtlc2.tool.queue.IStateQueue=StateDeque")
     cmd = ["java", *jopts, "-cp", TLA_CP, "tlc2.TLC", "-metadir", meta, "-noGenerateSpecTE",
